@@ -429,16 +429,7 @@ int fiber_sleep(uint32_t seconds, uint32_t useconds) {
   return FIBER_SUCCESS;
 }
 
-void fiber_fd_closed(int fd) {
-  if (event_fd < 0) {
-    return;
-  }
-
-  if (fd < 0 || fd >= max_fd) {
-    return;  // not a descriptor we can know about; close() reports the error
-  }
-  fd_wait_info_t* const info = &wait_info[fd];
-  fiber_spinlock_lock(&info->spinlock);
+static void fiber_fd_closed_locked(int fd, fd_wait_info_t* const info) {
 #if defined(__linux__)
   if (info->events || info->added) {
     epoll_ctl(event_fd, EPOLL_CTL_DEL, fd, NULL);
@@ -456,5 +447,34 @@ void fiber_fd_closed(int fd) {
   // setting result to -1 indicates to fiber_wait_for_event that the fd was
   // closed
   fiber_event_wake_waiters(fiber_manager_get(), info, -1);
+}
+
+void fiber_fd_closed(int fd) {
+  if (event_fd < 0) {
+    return;
+  }
+
+  if (fd < 0 || fd >= max_fd) {
+    return;  // not a descriptor we can know about; close() reports the error
+  }
+  fd_wait_info_t* const info = &wait_info[fd];
+  fiber_spinlock_lock(&info->spinlock);
+  fiber_fd_closed_locked(fd, info);
   fiber_spinlock_unlock(&info->spinlock);
+}
+
+int fiber_fd_close(int fd, int (*do_close)(int)) {
+  if (event_fd < 0 || fd < 0 || fd >= max_fd) {
+    return do_close(fd);
+  }
+
+  // the descriptor's lock is held across the close: a fiber that is about to
+  // wait on fd either registers before (and is woken here) or after the
+  // descriptor is gone (and its registration fails)
+  fd_wait_info_t* const info = &wait_info[fd];
+  fiber_spinlock_lock(&info->spinlock);
+  fiber_fd_closed_locked(fd, info);
+  const int ret = do_close(fd);
+  fiber_spinlock_unlock(&info->spinlock);
+  return ret;
 }
